@@ -130,6 +130,20 @@ def _has_numpy(value):
         return any(_has_numpy(v) for v in value)
     return isinstance(value, np.number)
 
+def _has_bool_beside_number(values):
+    """do the values hold, at one place (the values themselves, or the same position inside list/tuple/dict values), a bool in one and another number in another? python orders True as 1, cmp ranks the bools apart from the numbers"""
+    kinds = {}
+    def seen(value, place):
+        if isinstance(value, (list, tuple)):
+            return any(seen(v, place + (i,)) for i, v in enumerate(value))
+        if isinstance(value, dict): # dictable.sort([keys]) sorts rows of {key: value}, and {'k': True} == {'k': 1}
+            return any(seen(v, place + (k,)) for k, v in value.items())
+        kind = 1 if isinstance(value, (bool, np.bool_)) else 2 if isinstance(value, (int, float, np.number)) else 0
+        if kind:
+            kinds[place] = kinds.get(place, 0) | kind
+        return kind and kinds[place] == 3
+    return any(seen(value, ()) for value in values)
+
 def sort(iterable):
     """
     implements sorting allowing for comparing of not-same-type objects
@@ -153,7 +167,7 @@ def sort(iterable):
 
     """
     values = list(iterable)
-    if not _has_nan(values) and not _has_str_subclass(values):
+    if not _has_nan(values) and not _has_str_subclass(values) and not _has_bool_beside_number(values):
         try:
             # numpy numbers are ordered natively as the python numbers cmp sees: np.float64(2**53) == 2**53+1 is True, cmp is exact
             return sorted(values, key = as_primitive) if _has_numpy(values) else sorted(values)
